@@ -50,6 +50,9 @@ Next ==
                   /\ stack' = SubSeq(stack, 1, Len(stack) - 1)
                   /\ v' = Fail(IF stack = <<>> THEN "MachineryExitWithoutEnter"
                                ELSE ExitVerdict(stack[Len(stack)], e.snap, term, after))
+             [] e.k = "build" \/ e.k = "env" ->       \* an object is only constructed / the application changes the tty itself
+                  /\ stack' = stack
+                  /\ v' = Fail(IF e.exc # "" THEN "MachineryEnvStepRaised" ELSE "ok")
              [] OTHER -> stack' = stack /\ v' = Fail("MachineryUnknownEvent")
 Spec == Init /\ [][Next]_vars
 Report == (l <= Len(Traces[i].ev) \/ v[1] = "ok") \/ PrintT(<<"V", i>> \o v \o <<"exact">>)
